@@ -337,7 +337,7 @@ func cmdCheck(args []string) {
 			wall = s.ThoroughWall
 		}
 		if wall == 0 {
-			wall = 5 * time.Minute
+			wall = 10 * time.Minute
 			if *tier == "thorough" {
 				wall = 60 * time.Minute
 			}
@@ -466,7 +466,8 @@ func cmdCheck(args []string) {
 						}
 					}
 				case "panic":
-					confirmed = strings.HasPrefix(r.Outcome, "panic")
+					// a panic in a goroutine the code under test started kills the native process
+					confirmed = strings.HasPrefix(r.Outcome, "panic") || (strings.HasSuffix(c.Obligation, "no-panic-in-goroutine") && r.Outcome == "process-died")
 				case "deadlock", "fatal", "hang":
 					confirmed = r.Outcome == "process-died"
 				}
@@ -629,7 +630,7 @@ func doReplay(verifDir, prop, path string) int {
 			}
 		}
 	case "panic":
-		reproduced = strings.HasPrefix(r.Outcome, "panic")
+		reproduced = strings.HasPrefix(r.Outcome, "panic") || (strings.Contains(vf.Expect, "no-panic-in-goroutine") && r.Outcome == "process-died")
 	case "race":
 		reproduced = strings.Contains(out, "DATA RACE")
 	default:
